@@ -448,54 +448,223 @@ func loadStress(s *subject, goroutines, rounds int) *hx.Violation {
 	return first
 }
 
+// c17GlobalsMain is the body of `mc c17-globals`: in a FRESH process (no self-check, nothing warmed up) the bytes
+// of every package-level variable of the library are hashed (one level deep) before anything runs and after
+// load+Run(A)+Run(B) of every exploration subject, in order. Prints one JSON line: the subjects after which a
+// variable had changed, with the variables.
+func c17GlobalsMain() {
+	type hit struct {
+		Subject string   `json:"subject"`
+		Syms    []string `json:"syms"`
+	}
+	res := struct {
+		Watched int    `json:"watched"`
+		Err     string `json:"err,omitempty"`
+		Hits    []hit  `json:"hits"`
+	}{}
+	syms, err := hx.LibraryGlobals()
+	if err != nil {
+		res.Err = err.Error()
+		b, _ := json.Marshal(res)
+		fmt.Println("GLOBALS " + string(b))
+		return
+	}
+	res.Watched = len(syms)
+	base := hx.GlobalsDigest()
+	_, expl := c17Subjects(false, false)
+	if d := hx.GlobalsDiff(base, hx.GlobalsDigest()); len(d) > 0 {
+		// building the subjects (protobuf marshalling, the reference interpreter) must not touch the library
+		res.Hits = append(res.Hits, hit{"<harness: building the subjects>", d})
+		base = hx.GlobalsDigest()
+	}
+	for _, s := range expl {
+		func() {
+			defer func() { recover() }()
+			m, err := gonnx.NewModelFromBytes(s.Model)
+			if err != nil {
+				return
+			}
+			for _, f := range []map[string]*ref.T{s.FeedA, s.FeedB} {
+				feed := gonnx.Tensors{}
+				for k, t := range f {
+					feed[k] = hx.ToG(t)
+				}
+				m.Run(feed)
+			}
+		}()
+		now := hx.GlobalsDigest()
+		if d := hx.GlobalsDiff(base, now); len(d) > 0 {
+			res.Hits = append(res.Hits, hit{s.Name, d})
+			base = now
+		}
+	}
+	b, _ := json.Marshal(res)
+	fmt.Println("GLOBALS " + string(b))
+}
+
+// c17ColdMain is the body of `mc c17-cold <subject> <mode>`: the very first thing this fresh process does with
+// the library is concurrent: mode "load": 16 goroutines each load the model and Run it; mode "run": one load,
+// then 16 goroutines Run it at once. Every result is compared with the reference. Exit 0 / 1 ("COLD-VIOLATION").
+func c17ColdMain(name, mode string) {
+	var subj *subject
+	for _, s := range historySubjects(true) {
+		if s.Name == name {
+			subj = s
+		}
+	}
+	if subj == nil {
+		fmt.Println("COLD-ERROR unknown subject")
+		os.Exit(3)
+	}
+	if err := subj.prepare(); err != nil {
+		fmt.Println("COLD-ERROR reference: " + err.Error())
+		os.Exit(3)
+	}
+	var v *hx.Violation
+	if mode == "load" {
+		v = loadStress(subj, 16, 2)
+	} else {
+		v = stressPass(subj, 16, 2)
+	}
+	if v != nil {
+		fmt.Printf("COLD-VIOLATION %s: %s\n", v.Kind, truncateS(v.Detail, 600))
+		os.Exit(1)
+	}
+	fmt.Println("COLD-OK")
+}
+
+// coldRun executes one cold-start process; returns "" when clean, else a description.
+func coldRun(name, mode string) string {
+	exe, err := os.Executable()
+	if err != nil {
+		return ""
+	}
+	cmd := exec.Command(exe, "c17-cold", name, mode)
+	out, err := cmd.CombinedOutput()
+	text := string(out)
+	if err == nil && strings.Contains(text, "COLD-OK") {
+		return ""
+	}
+	if strings.Contains(text, "COLD-ERROR") {
+		hx.HarnessError("cold-start process for %s: %s", name, truncateS(text, 300))
+	}
+	for _, l := range strings.Split(text, "\n") {
+		if strings.HasPrefix(l, "COLD-VIOLATION") {
+			return l
+		}
+	}
+	for _, l := range strings.Split(text, "\n") {
+		if strings.HasPrefix(l, "fatal error:") || strings.HasPrefix(l, "panic:") {
+			return "the process crashed: " + l + " :: " + gonnxFrames(text)
+		}
+	}
+	return fmt.Sprintf("the process failed (%v): %s", err, truncateS(text, 300))
+}
+
+func init() {
+	replayers["cold"] = func(raw json.RawMessage) *hx.Violation {
+		var r struct {
+			Subject string `json:"subject"`
+			Mode    string `json:"mode"`
+		}
+		json.Unmarshal(raw, &r)
+		for i := 0; i < 40; i++ {
+			if d := coldRun(r.Subject, r.Mode); d != "" {
+				return &hx.Violation{Kind: "concurrent-interference", Detail: d}
+			}
+		}
+		return nil
+	}
+}
+
+// coldPass: cold-start concurrency (supplementary, free-running): for each subject and mode `reps` fresh processes.
+func coldPass(c *hx.Checker, subs []*subject, reps int, tag string) {
+	type job struct {
+		s    *subject
+		mode string
+	}
+	var jobs []job
+	for _, s := range subs {
+		jobs = append(jobs, job{s, "load"}, job{s, "run"})
+	}
+	c.ParallelFor(len(jobs), func(i int) {
+		j := jobs[i]
+		info := hx.CaseInfo{ID: fmt.Sprintf("cold-start/%s/%s/%s", tag, j.s.Name, j.mode), Tags: append([]string{"cold-start", "mode=" + j.mode}, j.s.Tags...), NonTrivial: true}
+		for r := 0; r < reps; r++ {
+			if d := coldRun(j.s.Name, j.mode); d != "" {
+				c.Note(info, "concurrent-interference", &hx.Violation{Kind: "concurrent-interference",
+					Detail: fmt.Sprintf("fresh process, first use of the library is concurrent (%s, 16 goroutines), attempt %d of %d: %s", j.mode, r+1, reps, d),
+					Replay: map[string]any{"replay_kind": "cold", "subject": j.s.Name, "mode": j.mode}})
+				return
+			}
+		}
+		c.Note(info, "ok:cold-start-clean", nil)
+	})
+}
+
 func globalStatePass(c *hx.Checker, expl []*subject) {
-	if _, err := hx.LibraryGlobals(); err != nil {
+	exe, err := os.Executable()
+	if err != nil {
 		c.Extra["global_state_pass"] = "skipped: " + err.Error()
 		return
 	}
-	runOnce := func(s *subject) {
-		defer func() { recover() }()
-		m, err := gonnx.NewModelFromBytes(s.Model)
-		if err != nil {
-			return
-		}
-		for _, f := range []map[string]*ref.T{s.FeedA, s.FeedB} {
-			feed := gonnx.Tensors{}
-			for k, t := range f {
-				feed[k] = hx.ToG(t)
-			}
-			m.Run(feed)
+	out, _ := exec.Command(exe, "c17-globals").CombinedOutput()
+	var res struct {
+		Watched int    `json:"watched"`
+		Err     string `json:"err"`
+		Hits    []struct {
+			Subject string   `json:"subject"`
+			Syms    []string `json:"syms"`
+		} `json:"hits"`
+	}
+	parsed := false
+	for _, l := range strings.Split(string(out), "\n") {
+		if strings.HasPrefix(l, "GLOBALS ") {
+			parsed = json.Unmarshal([]byte(l[8:]), &res) == nil
 		}
 	}
-	// no warm-up: compiler/runtime caches and the lazily built protobuf descriptor are excluded by name, so on a
-	// tree without package-level scratch state nothing changes from the very first load on
-	syms, _ := hx.LibraryGlobals()
-	c.Extra["library_globals_watched"] = len(syms)
-	base := hx.GlobalsDigest()
-	type hit struct {
-		s    *subject
-		syms []string
+	if !parsed {
+		// the fresh process died: with a modified library that is a crash under plain sequential use
+		c.Note(hx.CaseInfo{ID: "globals/process", Tags: []string{"global-state"}, NonTrivial: true}, "panic",
+			&hx.Violation{Kind: "panic", Detail: "the global-state process crashed: " + truncateS(string(out), 600), Replay: map[string]any{"replay_kind": "stress", "subject": "sample:mlp"}})
+		return
 	}
-	var hits []hit
+	if res.Err != "" {
+		c.Extra["global_state_pass"] = "skipped: " + res.Err
+		return
+	}
+	c.Extra["library_globals_watched"] = res.Watched
 	for _, s := range expl {
-		runOnce(s)
-		now := hx.GlobalsDigest()
-		if d := hx.GlobalsDiff(base, now); len(d) > 0 {
-			hits = append(hits, hit{s, d})
-			base = now
-		}
 		c.Note(hx.CaseInfo{ID: "globals/" + s.Name, Tags: []string{"global-state"}, NonTrivial: true}, "ok:globals-checked", nil)
 	}
+	byName := map[string]*subject{}
+	for _, s := range expl {
+		byName[s.Name] = s
+	}
 	var unconfirmed []string
-	for _, h := range hits {
-		h := h
-		id := "globals-confirm/" + h.s.Name
-		info := hx.CaseInfo{ID: id, Tags: []string{"global-state", "op=" + h.s.Name}, NonTrivial: true}
+	for _, h := range res.Hits {
+		s := byName[h.Subject]
+		if s == nil {
+			unconfirmed = append(unconfirmed, fmt.Sprintf("%s: %v", h.Subject, h.Syms))
+			continue
+		}
+		id := "globals-confirm/" + s.Name
+		info := hx.CaseInfo{ID: id, Tags: []string{"global-state", "op=" + s.Name}, NonTrivial: true}
 		var found *hx.Violation
-		for _, f := range []func() *hx.Violation{func() *hx.Violation { return stressPass(h.s, 16, 150) }, func() *hx.Violation { return loadStress(h.s, 16, 60) }} {
+		for _, f := range []func() *hx.Violation{func() *hx.Violation { return stressPass(s, 16, 150) }, func() *hx.Violation { return loadStress(s, 16, 60) },
+			func() *hx.Violation {
+				for r := 0; r < 40; r++ {
+					for _, mode := range []string{"load", "run"} {
+						if d := coldRun(s.Name, mode); d != "" {
+							return &hx.Violation{Kind: "concurrent-interference", Detail: "cold start (" + mode + "): " + d, Replay: map[string]any{"replay_kind": "cold", "subject": s.Name, "mode": mode}}
+						}
+					}
+				}
+				return nil
+			}} {
 			if v := f(); v != nil {
 				v.Kind = "global-state-race"
-				v.Detail = fmt.Sprintf("loading/running this model writes the library's package-level variables %v, and concurrent use is disturbed by it: %s", h.syms, v.Detail)
+				v.Detail = fmt.Sprintf("loading/running this model writes the library's package-level variables %v, and concurrent use is disturbed by it: %s", h.Syms, v.Detail)
 				found = v
 				break
 			}
@@ -505,7 +674,7 @@ func globalStatePass(c *hx.Checker, expl []*subject) {
 			c.Note(info, found.Kind, found)
 		} else {
 			c.Note(info, "ok:global-write-unconfirmed", nil)
-			unconfirmed = append(unconfirmed, fmt.Sprintf("%s: %v", h.s.Name, h.syms))
+			unconfirmed = append(unconfirmed, fmt.Sprintf("%s: %v", s.Name, h.Syms))
 		}
 	}
 	if len(unconfirmed) > 0 {
@@ -533,15 +702,15 @@ func exploreSubjects(all []*subject) []*subject {
 	return out
 }
 
-func checkC17(c *hx.Checker) {
-	thorough := c.Tier == "thorough"
-	subs := historySubjects(thorough)
+// c17Subjects: all subjects and the exploration subjects (per operator the role assignment with the most shared
+// weights that still has a caller input; compositions; samples without ndm).
+func c17Subjects(thorough, prepare bool) (subs, expl []*subject) {
+	subs = historySubjects(thorough)
 	for _, s := range subs {
 		if err := s.prepare(); err != nil {
 			hx.HarnessError("reference cannot evaluate %s: %v", s.Name, err)
 		}
 	}
-	// exploration subjects: per operator the role assignment with the most weights (last mask), compositions, samples
 	byOp := map[string]*subject{}
 	var order []string
 	for _, s := range subs {
@@ -553,19 +722,23 @@ func checkC17(c *hx.Checker) {
 			order = append(order, key)
 		}
 		if len(s.FeedA) > 0 || byOp[key] == nil {
-			// keep the assignment with the fewest caller inputs that still has one (most shared weights)
 			if cur := byOp[key]; cur == nil || len(cur.FeedA) == 0 || (len(s.FeedA) > 0 && len(s.FeedA) < len(cur.FeedA)) {
 				byOp[key] = s
 			}
 		}
 	}
-	var expl []*subject
 	for _, k := range order {
 		if byOp[k].Name == "sample:ndm" {
 			continue
 		}
 		expl = append(expl, byOp[k])
 	}
+	return subs, expl
+}
+
+func checkC17(c *hx.Checker) {
+	thorough := c.Tier == "thorough"
+	subs, expl := c17Subjects(thorough, true)
 	b2, b3 := 2, 1
 	if thorough {
 		b2, b3 = 3, 2
@@ -573,7 +746,8 @@ func checkC17(c *hx.Checker) {
 	c.Rule = fmt.Sprintf("(1) frozen-state pass on %d subjects (every registered operator under every caller-input / initializer role assignment, the compositions, the sample models): weight tensors (header, shape, strides, data) and every repeated scalar field of the model proto are relocated into an mmap arena and mprotect'ed read-only; Run(A), Run(B), Run(A) must complete without a write fault and with the reference outputs. "+
 		"(2) interleaving exploration on %d subjects (per operator the role assignment with the most shared weights; compositions; mlp, scaler, gru): cooperative scheduler with scheduling points at thread start, before GetOperator / Init / ValidateInputs / Apply of every node, between consecutive Runs and at thread end; depth-first enumeration of ALL schedules with <= %d preemptions for 2 threads {Run(A);Run(B)} || {Run(B)} and <= %d preemptions for 3 threads (+ {NewModelFromBytes; Run(A)} on a further model); every thread's outputs must equal the solo result and the shared-state digest must equal the load-time digest after every step. "+
 		"(3) supplementary free-running passes: 16 goroutines x 30 Runs on one shared Model, and 8 goroutines x 10 rounds of NewModelFromBytes+Run, per exploration subject, results compared with the solo result (thorough: the same bodies in a separately built -race binary). "+
-		"(0) global-state pass: the bytes of every writable package-level symbol of the library inside the check binary (ELF symbol table; %d symbols) are hashed before/after load+Run of every exploration subject (no warm-up: runtime caches and the protobuf descriptor are excluded by name); a change is escalated to 16x150 Runs + 16x60 loads and reported only if interference is confirmed. "+
+		"(0) global-state pass in a fresh process (nothing warmed up, no self-check): the bytes of every writable package-level symbol of the library inside the check binary (ELF symbol table; %d symbols) are hashed one level deep (map element counts, leading bytes of pointed-to structs and slice backing arrays) before anything runs and after load+Run of every exploration subject (runtime caches and the protobuf descriptor are excluded by name); a change is escalated to 16x150 Runs + 16x60 loads + 80 cold-start processes and reported only if interference is confirmed. "+
+		"(3b) cold-start pass (supplementary): per exploration subject and mode (16 goroutines load+Run / one load then 16 concurrent Runs) fresh processes whose very first use of the library is concurrent; a crash of such a process (e.g. concurrent map writes) or a deviating result is reported. "+
 		"states = scheduling points visited, transitions = thread steps executed; non-trivial = every exploration and frozen case", len(subs), len(expl), b2, b3, nGlobals())
 	c.Assumptions = []string{"scheduling points are at operator-phase granularity (no hook inside gonnx is needed: Model.GetOperator is an exported field); interleavings inside one phase are covered only for Model-owned state (write trap) and by the supplementary free-running passes",
 		"the Go memory model's weak behaviours are not modelled (irrelevant once no shared write exists)", "a fault inside a goroutine spawned by gorgonia cannot be recovered and would abort the check process (reported by run.sh as a failure)"}
@@ -651,7 +825,12 @@ func checkC17(c *hx.Checker) {
 	c.AddStates(points)
 	c.AddTransitions(points)
 	c.AddTraces(execs)
-	// (3) free-running pass
+	// (3) free-running passes; first the cold-start one: fresh processes whose first use of the library is concurrent
+	reps := 4
+	if thorough {
+		reps = 12
+	}
+	coldPass(c, expl, reps, "all")
 	c.ParallelFor(len(expl), func(i int) {
 		s := expl[i]
 		info := hx.CaseInfo{ID: "stress/" + s.Name, Tags: append([]string{"stress"}, s.Tags...), NonTrivial: true}
@@ -704,6 +883,14 @@ func racePass(c *hx.Checker) {
 // c17RaceMain is the body of `mc c17-race` (meant for the -race build).
 func c17RaceMain() {
 	subs := historySubjects(false)
+	// cold start first: the very first use of the library in this process is 8 goroutines loading + running at once
+	for _, s := range subs {
+		if s.Name == "sample:gru" && s.prepare() == nil {
+			if v := loadStress(s, 8, 3); v != nil {
+				fmt.Printf("STRESS-VIOLATION %s: %s\n", s.Name, v.Detail)
+			}
+		}
+	}
 	for _, s := range subs {
 		if strings.Contains(s.Name, "/init-mask=") && !strings.HasSuffix(s.Name, "=10") && !strings.HasSuffix(s.Name, "=110") && !strings.HasSuffix(s.Name, "=0") {
 			continue
